@@ -608,8 +608,29 @@ def seqkind_rule(ctx):
                         for names, adt, oo, d_, oth in option_guards(se, tbb):
                             if 'Some' in names and any(call_matches(c, ['::checked_sub']) for c in oo.calls):
                                 wr_dom = all(not ok_return_blocks(se, se.reachable_from(s)) for s in oth)
-                ctx.ob('SEQKIND', 'element/Fixed/countdown', cs and wr_dom, short_loc(se.span),
-                       'checked_sub(expected_len,1): %s; byte written only in its Some arm and the None arm returns no Ok: %s' % (cs, wr_dom))
+                # the same countdown spelt as a comparison: `if *expected_len == 0 { return Err(..) } *expected_len -= 1;`
+                cmp_form = False
+                if not (cs and wr_dom):
+                    nonzero = False
+                    for tok, tb, tbb, t in toks:
+                        if tok == ('RAW', 1, None):
+                            for g in cmp_guards(se, tbb):
+                                lf, rf = 'expected_len' in g['l'].fields, 'expected_len' in g['r'].fields
+                                lc, rc = g['l'].consts(), g['r'].consts()
+                                holds = (g['op'] == 'Ne' and ((lf and rc == {0}) or (rf and lc == {0}))) or \
+                                        (g['op'] == 'Gt' and lf and rc == {0}) or (g['op'] == 'Lt' and rf and lc == {0}) or \
+                                        (g['op'] == 'Ge' and lf and rc == {1}) or (g['op'] == 'Le' and rf and lc == {1})
+                                if holds and all(not ok_return_blocks(se, se.reachable_from(s_)) for s_ in g['other']):
+                                    nonzero = True
+                    dec = False
+                    for bb in r.blocks:
+                        for s_ in se.stmts(bb):
+                            if 'assign' in s_ and s_['rv']['k'] == 'bin' and s_['rv']['op'] in ('SubWithOverflow', 'Sub') and const_int(s_['rv']['r']) == 1 \
+                                    and 'expected_len' in origin(se, s_['rv']['l']).fields:
+                                dec = True
+                    cmp_form = nonzero and dec
+                ctx.ob('SEQKIND', 'element/Fixed/countdown', (cs and wr_dom) or cmp_form, short_loc(se.span),
+                       'checked_sub(expected_len,1): %s; byte written only in its Some arm and the None arm returns no Ok: %s; or written only under expected_len != 0 (the other edge returns no Ok) with expected_len decremented by 1: %s' % (cs, wr_dom, cmp_form))
     ctx.ob('SEQKIND', 'element/covers-kinds', seen >= {'Array', 'Duration', 'BufferedBytes', 'Fixed'}, short_loc(se.span), 'kinds %s' % sorted(seen), nontrivial=False)
     en = bs['end']
     ctx.touched(en)
